@@ -8,6 +8,9 @@
 (*   [op |-> "dget",  k, obs]        d?:k          remote dictionary get    *)
 (*   [op |-> "eval",  k, obs]        f("k")        evaluate text remotely   *)
 (*   [op |-> "assign",k, v, obs]     f("k::<v>")   assignment by text       *)
+(*   [op |-> "evalx", k, obs]        f("k=7")      an expression over k;    *)
+(*        obs = [t |-> "expr", v |-> id] when the result is what the        *)
+(*        expression yields for the value id (decided by a local twin)      *)
 (*   [op |-> "call1", v, obs]        f(:id,,v)     remote function call     *)
 (*   [op |-> "call2", a, b, obs]     f((:pair,,a),,b)                       *)
 (*   [op |-> "proxy1",v, obs]        q::f(:id); q(v)                        *)
@@ -36,6 +39,8 @@ Do(m, e) ==
                                     ELSE IF m.env[e.k] = Undef THEN "UndefinedNotUndefined" ELSE "GetMismatch">>
     [] e.op = "eval"   -> <<m, IF m.env[e.k] \in {Undef, NotSet} THEN "ok"        \* unbound name: not specified here
                                ELSE IF IsV(e.obs, m.env[e.k]) THEN "ok" ELSE "EvalMismatch">>
+    [] e.op = "evalx"  -> <<m, IF m.env[e.k] \in {Undef, NotSet, 8, 9} THEN "ok"
+                               ELSE IF e.obs.t = "expr" /\ e.obs.v = m.env[e.k] THEN "ok" ELSE "ExpressionSeesOtherValue">>
     [] e.op \in {"call1", "proxy1"} -> <<m, IF IsV(e.obs, e.v) THEN "ok"
                                            ELSE IF e.v = Undef THEN "UndefinedNotUndefined" ELSE "CallMismatch">>
     [] e.op \in {"call2", "proxy2"} -> <<m, IF e.obs.t = "pair" /\ e.obs.a = e.a /\ e.obs.b = e.b THEN "ok" ELSE "CallMismatch">>
